@@ -8,6 +8,7 @@
 import Lumina.Model.RowProof
 import Lumina.Model.Nmt
 import Lumina.Model.Eds
+import Lumina.Model.Decoders
 
 namespace Lumina.Model.ShareProof
 open Lumina.Util Lumina.Model.Merkle
@@ -55,7 +56,9 @@ def sharesNeeded : Nat → List NsProof → Except Outcome Nat
     else if u32Max < acc + (p.end_ - p.start) then .error .panic
     else sharesNeeded (acc + (p.end_ - p.start)) ps
 
-/-- the second loop: per row, take `amount` shares off the front of `data` and verify their range proof.
+/-- the second loop: per row, take `amount` shares off the front of `data` and verify their range proof
+    with lumina's `NamespaceProof::verify_range` (= shape validation, then nmt-rs `verify_range`; group D's
+    `Decoders.safeVerifyRange`, /repo commit 07cb5f3).
     A row root that is not a 90-byte namespaced hash cannot occur in Rust (typed); the model treats it
     as a panic. `&data[..amount]` panics when fewer shares are left. -/
 def rangeLoop (h : Nmt.HashFn) (ns : Bytes) : List Bytes → List NsProof → List Bytes → Outcome
@@ -66,7 +69,7 @@ def rangeLoop (h : Nmt.HashFn) (ns : Bytes) : List Bytes → List NsProof → Li
       match NsHash.ofBytes? r with
       | none => .panic
       | some root =>
-        match Nmt.verifyRange h p root (data.take amount) ns with
+        match Decoders.safeVerifyRange h p root (data.take amount) ns with
         | .error .panic => .panic
         | .error e => .err (.rangeProof e)
         | .ok () => rangeLoop h ns (data.drop amount) ps rs
